@@ -110,19 +110,61 @@ Theorem C11_copy_of_empty_gets_defaults : forall fresh,
 Proof. exact copy_of_empty_gets_defaults. Qed.
 Print Assumptions C11_copy_of_empty_gets_defaults.
 
+(* ---- the list of media ranges is split at commas OUTSIDE quoted strings
+   (fixes/C13-quoted-comma-media-ranges.patch; c_fixed := false is header.split(',') as found) *)
+Theorem C11_split_without_quote : forall f h,
+  char_in dq h = false ->
+  split_media_ranges f h = split_chr comma h /\
+  split_quoted h [] false false = Some (split_chr comma h).
+Proof. exact split_without_quote. Qed.
+Print Assumptions C11_split_without_quote.
+
+Theorem C11_quoted_string_never_split : forall pre body post,
+  plain pre = true -> qs_body_ok body = true -> plain post = true ->
+  split_media_ranges true (pre ++ dq :: body ++ dq :: post) = [pre ++ dq :: body ++ dq :: post].
+Proof. exact quoted_string_never_split. Qed.
+Print Assumptions C11_quoted_string_never_split.
+
+Theorem C11_unterminated_quote_plain_split : forall h,
+  split_quoted h [] false false = None -> split_media_ranges true h = split_chr comma h.
+Proof. exact unterminated_quote_plain_split. Qed.
+Print Assumptions C11_unterminated_quote_plain_split.
+
+Theorem C11_quoted_comma_splits_refuted_before_fix :
+  exists pre body post, plain pre = true /\ qs_body_ok body = true /\ plain post = true /\
+    split_media_ranges false (pre ++ dq :: body ++ dq :: post) <> [pre ++ dq :: body ++ dq :: post].
+Proof. exact quoted_comma_splits_refuted_before_fix. Qed.
+Print Assumptions C11_quoted_comma_splits_refuted_before_fix.
+
+Theorem C11_quoted_boundary_resolves_only_after_fix :
+  let d := [(lit "multipart/form-data", 1%N)] in
+  let ct := Some (lit "multipart/form-data; boundary=""ab,cd""") in
+  resolve_uncached {| c_fixed := false; c_oracle := None |} d (ct, lit "application/json", true) = R415 /\
+  resolve_uncached {| c_fixed := true; c_oracle := None |} d (ct, lit "application/json", true) = RHandler 1%N.
+Proof. exact quoted_boundary_resolves_only_after_fix. Qed.
+Print Assumptions C11_quoted_boundary_resolves_only_after_fix.
+
+Example C11_split_examples :
+  split_media_ranges true (lit "a/b;k=""x,y"", c/d") = [lit "a/b;k=""x,y"""; lit " c/d"] /\
+  split_media_ranges true (lit "a/b;k=""x\"",y"", c/d") = [lit "a/b;k=""x\"",y"""; lit " c/d"] /\
+  split_media_ranges true (lit "a/b;k=""x\\"", c/d") = [lit "a/b;k=""x\\"""; lit " c/d"] /\
+  split_media_ranges true (lit "a/b;k=""x, c/d") = [lit "a/b;k=""x"; lit " c/d"] /\
+  quality cfg0 (lit "c/d") (lit "a/b;k=""x,y"";q=0.2, c/d;q=0.5") = Ok (5 # 10).
+Proof. vm_compute. repeat split; reflexivity. Qed.
+
 (* ---- non-vacuity and documented corner cases *)
 Example C11_specificity_example :
   (* text/html;level=1 beats text/html beats text/* beats */* , whatever the order and the q *)
   let h := lit "*/*;q=0.9, text/*;q=0.1, text/html;level=1;q=0.4, text/html;q=0.7" in
-  quality None (lit "text/html;level=1") h = Ok (4 # 10) /\
-  quality None (lit "text/html") h = Ok (7 # 10) /\
-  quality None (lit "text/plain") h = Ok (1 # 10) /\
-  quality None (lit "image/png") h = Ok (9 # 10) /\
-  best_match None [lit "text/plain"; lit "image/png"; lit "text/html"] h = Ok (Some (lit "image/png")) /\
-  best_match None [lit "a/b"] (lit "a/b;q=0") = Ok None /\
-  quality None (lit "a/b") (lit "a/b;q=1.5") = Err EInvalidMediaRange /\
-  quality None (lit "ab") (lit "a/b") = Err EInvalidMediaType /\
-  quality None (lit "a/b") (lit "a/b;q=1e-1") = Err ENeedOracle.
+  quality cfg0 (lit "text/html;level=1") h = Ok (4 # 10) /\
+  quality cfg0 (lit "text/html") h = Ok (7 # 10) /\
+  quality cfg0 (lit "text/plain") h = Ok (1 # 10) /\
+  quality cfg0 (lit "image/png") h = Ok (9 # 10) /\
+  best_match cfg0 [lit "text/plain"; lit "image/png"; lit "text/html"] h = Ok (Some (lit "image/png")) /\
+  best_match cfg0 [lit "a/b"] (lit "a/b;q=0") = Ok None /\
+  quality cfg0 (lit "a/b") (lit "a/b;q=1.5") = Err EInvalidMediaRange /\
+  quality cfg0 (lit "ab") (lit "a/b") = Err EInvalidMediaType /\
+  quality cfg0 (lit "a/b") (lit "a/b;q=1e-1") = Err ENeedOracle.
 Proof. vm_compute. repeat split; reflexivity. Qed.
 
 (* float() on decimal literals, as exact rationals *)
@@ -138,9 +180,9 @@ Proof. vm_compute. repeat split; reflexivity. Qed.
    resolve with the default mapping.  Observation, judged outside C11's statement (see notes). *)
 Example C11_matching_is_case_sensitive :
   let d := [(lit "application/json", 1%N)] in
-  quality None (lit "APPLICATION/JSON") (lit "application/json") = Ok (0 # 1) /\
-  resolve_uncached None d (Some (lit "APPLICATION/JSON"), lit "application/json", true) = R415 /\
-  resolve_uncached None d (Some (lit "application/json; charset=UTF-8"), lit "text/plain", true) = RHandler 1%N.
+  quality cfg0 (lit "APPLICATION/JSON") (lit "application/json") = Ok (0 # 1) /\
+  resolve_uncached cfg0 d (Some (lit "APPLICATION/JSON"), lit "application/json", true) = R415 /\
+  resolve_uncached cfg0 d (Some (lit "application/json; charset=UTF-8"), lit "text/plain", true) = RHandler 1%N.
 Proof. vm_compute. repeat split; reflexivity. Qed.
 
 Example C11_cache_history_nontrivial :
@@ -150,7 +192,7 @@ Example C11_cache_history_nontrivial :
               (0, OCopy [7%N; 8%N; 9%N]); (1, ODel (lit "text/plain; charset=utf-8"));
               (1, OResolve (Some (lit "text/plain; charset=utf-8"), lit "application/json", false));
               (0, OResolve (Some (lit "text/plain; charset=utf-8"), lit "application/json", true))] in
-  snd (run_ops None [new_handlers [(lit "text/*", 1%N)] []] ops) =
+  snd (run_ops cfg0 [new_handlers [(lit "text/*", 1%N)] []] ops) =
     [OResolved (RHandler 1%N); ONone; OResolved (RHandler 2%N); OCopied 1; ONone;
      OResolved (RHandler 1%N); OResolved (RHandler 2%N)].
 Proof. vm_compute. reflexivity. Qed.
